@@ -56,6 +56,9 @@ def ACur.asBytes (a : ACur) : B := (List.range a.len).map a.get
 
 def ceilDiv (n a : Nat) : Nat := (n + (a - 1)) / a
 
+/-- `with_capacity(c)`: storage for `c` bytes rounded up to whole units, nothing written -/
+def ACur.withCapacity (al c : Nat) : ACur := { cap := ceilDiv c al * al, get := fun _ => 0, pos := 0, len := 0 }
+
 /-- `write` -/
 def ACur.write (al : Nat) (a : ACur) (buf : B) : ACur × Out :=
   let len := min buf.length (usizeMax - a.pos)
